@@ -641,6 +641,11 @@ func (t *Terminfo) TPuts(w io.Writer, s string) {
 			return
 		}
 		val := s[:end]
+		if !isPadding(val) {
+			// not a padding specification: it is ordinary text
+			_, _ = io.WriteString(w, "$<")
+			continue
+		}
 		s = s[end+1:]
 		padus := 0
 		unit := time.Millisecond
@@ -672,6 +677,32 @@ func (t *Terminfo) TPuts(w io.Writer, s string) {
 			time.Sleep(unit * time.Duration(padus))
 		}
 	}
+}
+
+// isPadding reports whether val is the inside of a padding specification
+// $<n[.m][*][/]>: a number with an optional fraction, then optional flags.
+func isPadding(val string) bool {
+	i := 0
+	for i < len(val) && val[i] >= '0' && val[i] <= '9' {
+		i++
+	}
+	if i == 0 {
+		return false
+	}
+	if i < len(val) && val[i] == '.' {
+		j := i + 1
+		for j < len(val) && val[j] >= '0' && val[j] <= '9' {
+			j++
+		}
+		if j == i+1 {
+			return false
+		}
+		i = j
+	}
+	for i < len(val) && (val[i] == '*' || val[i] == '/') {
+		i++
+	}
+	return i == len(val)
 }
 
 // TGoto returns a string suitable for addressing the cursor at the given
